@@ -12,9 +12,10 @@ from ..core import finish, ROOT
 from ..tlc import MachineryError
 
 MODES = ["first_keep", "first_replace", "last_keep", "last_replace", "append_nopop", "append_pop",
-         "magic_end", "magic_idx", "fn_plain", "fn_args", "fn_compiled", "num_first_keep", "num_append_pop"]
+         "magic_end", "magic_idx", "fn_plain", "fn_args", "fn_compiled", "num_first_keep", "num_append_pop",
+         "obj_idx"]        # a python object built on the stack by insert_python_obj and discarded again: adds no call
 NUMARGS = ("1e3", 8080, b"12", "payload")       # numeric-looking text / bytes must arrive as text / bytes
-KEEPS = {"first_keep", "last_keep", "append_pop", "magic_end", "magic_idx", "num_first_keep", "num_append_pop"}
+KEEPS = {"first_keep", "last_keep", "append_pop", "magic_end", "magic_idx", "num_first_keep", "num_append_pop", "obj_idx"}
 FN = "def verif_fn(obj, *a):\n    import verif_sink\n    verif_sink.calls.append(('fn', a, {}))\n    return ['wrapped', obj]\n"
 ASSUME = ["base pickles are clean (exactly one value on the VM stack at STOP); symbolic globals are instantiated with the "
           "logging sink (verif_sink.Thing) so that real loads are harmless",
@@ -66,6 +67,12 @@ def apply_mode(fk, p, mode, callee="sink"):
         while isinstance(p[i], (fk.Proto, fk.Frame)):
             i += 1
         p.insert_magic_int(4660, i)
+    elif mode == "obj_idx":
+        i = 0
+        while isinstance(p[i], (fk.Proto, fk.Frame)):
+            i += 1
+        n = p.insert_python_obj(i, [1, "a", {"k": [2, b"x"]}])
+        p.insert(i + n, fk.Pop())
     elif mode == "fn_plain":
         p.insert_function_call_on_unpickled_object(FN)
     elif mode == "fn_args":
@@ -119,7 +126,7 @@ def run(ctx):
         for mode in MODES:
             rec = {"id": len(recs), "base": ops, "mode": mode, "prof": prof, "fnk": FNK, "callee": "sink", "base_hex": data.hex(), "refused": False,
                    "new": [], "new_hex": "", "sev": -1, "keeps": mode in KEEPS,
-                   "added": 0 if mode.startswith("magic") else 1, "inj": dg(["injected", ["tuple", ["str", "'payload'"]], ["dict"]])
+                   "added": 0 if mode.startswith("magic") or mode == "obj_idx" else 1, "inj": dg(["injected", ["tuple", ["str", "'payload'"]], ["dict"]])
                    if not mode.startswith(("fn_", "num_")) else dg(["injected", ["tuple", ["str", "'1e3'"], ["int", "8080"], ["bytes", "b'12'"], ["str", "'payload'"]], ["dict"]])
                    if mode.startswith("num_") else dg(["fn", ["tuple"] + ([["int", "7"], ["str", "'x'"]] if mode == "fn_args" else []), ["dict"]]),
                    "base_loads": False, "bcalls": [], "bres": "", "injres": "", "runs": []}
@@ -198,7 +205,7 @@ def run(ctx):
     return finish(ctx, level="model_checking", failures=failures, evaluations=len(recs), distinct_nontrivial=len(nontriv),
                   rule=f"TLC checks InjOK on the transcription of the helpers for EVERY clean program of three profiles up to length "
                        f"{maxlen} and emits them as bases; a seeded sample of them plus natural pickles (instances, shared refs, >255 "
-                       "memo entries, protocols 0-5) is rewritten by the REAL helpers in 11 modes; the produced bytes are disassembled "
+                       "memo entries, protocols 0-5) is rewritten by the REAL helpers in 14 modes (plus the callee dimension); the produced bytes are disassembled "
                        "and TLC evaluates InjWhy/FnWhy on them and validates the logged real loads; non-trivial = base loads and has "
                        "effects or >= 4 opcodes; distinct by (base bytes, mode)",
                   samples=samples, traces=len(recs), assumptions=ASSUME,
